@@ -651,3 +651,14 @@ func (c *Ctx) memberAtom(a an.PathAtom) (x *an.Expr, set []int64, member bool, o
 	}
 	return nil, nil, false, false
 }
+
+// monitorPath reports whether a path of parseInterface takes the monitor-mode
+// short circuit (its result carries no advertising settings; R-C02-4 owns it).
+func monitorPath(p *an.Path) bool {
+	for _, a := range p.Atoms {
+		if a.Cond.IsField("Monitor") && a.Pos {
+			return true
+		}
+	}
+	return false
+}
